@@ -22,6 +22,16 @@
      - a URL just inserted is held;
      - further insertions never un-hold a URL;
      - inserting a URL that is held does not change the tree.
+   STATUS OF THESE PREMISES.  They are proved for the toy tree below only.  The
+   real urltree is not modelled, so they are never discharged for it; for a
+   flush WITH a re-keying pass ([olds] <> []) the real tree is known NOT to meet
+   the conclusion in about 2 flushes of 10 000 (hence at least one premise is
+   false for it there).  What suite "settle" demands of the code is the case
+   [olds = []] ([C15_grouping_settled_no_rekeying_with]); and it observes only
+   the number of leading inserts and a counter of unsettled look-ups:
+   [flush_tree], [normalize_pass] and [settled] are NOT evaluated by any suite
+   (only [pre_normalised], through [expected_pre]).  The sentence below that
+   the oracles of Model.v "stand for" this look-up is prose, not a lemma.
    Because of the first step the grouping pass works on a tree that already
    holds every URL of the batch, so it does not move while it groups: every
    record of a flush is filed under the key the tree gives its URL at the END of
@@ -94,6 +104,19 @@ Definition C15_grouping_settled_with (skip_on_empty : bool) : Prop :=
       settled tree lookup urls urlsC
         (flush_tree tree insert lookup skip_on_empty state_empty t olds urls urlsC).
 
+(* the same for the flushes WITHOUT a re-keying pass ([olds = []]): the case
+   suite "settle" demands of the real code (rekeyed = false) *)
+Definition C15_grouping_settled_no_rekeying_with (skip_on_empty : bool) : Prop :=
+  forall (tree : Type) (insert : tree -> str -> tree) (lookup : tree -> str -> str)
+         (stable : tree -> str -> Prop),
+    (forall t u, stable (insert t u) u) ->
+    (forall t u v, stable t u -> stable (insert t v) u) ->
+    (forall t u, stable t u -> insert t u = t) ->
+    forall (state_empty : bool) (t : tree) (urls urlsC : list str),
+      incl urlsC urls ->
+      settled tree lookup urls urlsC
+        (flush_tree tree insert lookup skip_on_empty state_empty t [] urls urlsC).
+
 (* ---------------------------------------------------------------------- *)
 (* A toy tree for the refutation: the set of inserted URLs; once it holds
    three of them every URL reads as one parameterised key. *)
@@ -106,6 +129,14 @@ Definition toy_lookup (t : toy) (u : str) : str :=
 Definition toy_stable (t : toy) (u : str) : Prop := existsb (str_eqb u) t = true.
 
 Definition toy_urls : list str := [[49]; [50]; [51]].                  (* "1" "2" "3" *)
+
+(* A tree that does NOT keep what it holds: every insert is remembered, also
+   that of a URL it already has (a counter), and the look-up depends on the
+   number of inserts.  It meets the first two premises and fails the third
+   ([insert t u = t] for a held [u]) — the premise a tree that "converges
+   further at a later re-insert" fails. *)
+Definition bump_insert (t : toy) (u : str) : toy := t ++ [u].
+Definition bump_stable (t : toy) (u : str) : Prop := In u t.
 
 (* ---------------------------------------------------------------------- *)
 (* Correspondence, suite "settle".  Per flush the harness reports
